@@ -621,7 +621,15 @@ def check_u12(ctx) -> None:
             for nxt in blk[idx + 1:idx + 3]:
                 if isinstance(nxt, ast.Assign) and norm(nxt.targets[0]) == obj + '.value':
                     paired = True
-            key = f'{f.qualname}/{_obj_key(obj)}/relabel-paired-with-value-change'
+            # the object is keyed by what it is, not by how the statement spells it: `OutputParameterDict[<name after 'Units:'>]` for the
+            # output a Units: request names, whatever the locals holding the name are called
+            okey = obj
+            if isinstance(st.targets[0].value, ast.Subscript) and norm(st.targets[0].value.value).endswith('OutputParameterDict'):
+                from gxstat.inline import inline_sequential
+                ix = norm(inline_sequential(st.targets[0].value.slice, st, cross_loops=True))
+                if ".replace('Units:', '')" in ix:
+                    okey = f"{norm(st.targets[0].value.value)}[<name after 'Units:'>]"
+            key = f'{f.qualname}/{_obj_key(okey)}/relabel-paired-with-value-change'
             where = f'{f.module.rel}:{st.lineno}'
             msg = (f'`{norm(st)[:110]}` changes the unit label of {obj} and nothing in the block converts its value: the number stays in the '
                    f'old unit under the new label (and a later conversion starts from the wrong unit)')
